@@ -18,7 +18,7 @@
   The size limit is the SETTINGS_MAX_FRAME_SIZE lighttpd ADVERTISES (RFC 9113 4.2); the C code
   uses h2c->s_max_frame_size, i.e. the PEER's setting latched per h2_parse_frames() call, which
   differs once the client has announced a larger value of its own (reported defect, see
-  design/C05.md).  Not modelled: PRIORITY_UPDATE (type 0x10) is passed on as an unknown type.
+  design/C05.md).  PRIORITY_UPDATE (type 0x10): `parsePrio` = h2_parse_priority_update().
 
   `BConn`, `feedSeg`, `h2StepBytes` compose the reader with the frame-level machine of
   Model/H2.lean.  HPACK is a parameter (`dec : Bytes → HdrKind`), it is C07's.
@@ -184,6 +184,43 @@ def hdrFrame (dec : Bytes → HdrKind) (f : RawFrame) : FrameIn :=
       (if flagSet f.flags 32 then some (be (slice f.payload (if flagSet f.flags 8 then 1 else 0) 4)) else none)
       false false
 
+/-! h2_parse_priority_update(): the Priority field value of RFC 9218 (`u=<0..7>`, `i`, `i=?0|?1`,
+    comma separated; parsing stops at the first thing it does not understand) as the C scans it -/
+
+/-- `do { ++i; } while (i < len && prio[i] != ',')`: index of the next comma behind `i` (or len) -/
+def prioSkip (p : Bytes) : Nat → Nat → Nat
+  | 0, i => i
+  | fuel + 1, i => if i + 1 < p.length ∧ p.getD (i + 1) 0 ≠ 44 then prioSkip p fuel (i + 1) else i + 1
+
+def prioSep (b : UInt8) : Bool := b == 32 || b == 9 || b == 44
+
+/-- the for loop; `i` = index examined, result (urgency, incremental) -/
+def prioLoop (p : Bytes) : Nat → Nat → Nat → Bool → Nat × Bool
+  | 0, _, urg, incr => (urg, incr)
+  | fuel + 1, i, urg, incr =>
+    if i ≥ p.length then (urg, incr) else
+    if prioSep (p.getD i 0) then prioLoop p fuel (i + 1) urg incr else
+    if p.getD i 0 = 117 then                              -- 'u'
+      if i + 2 < p.length ∧ p.getD (i + 1) 0 = 61 then     -- '='
+        if 48 ≤ (p.getD (i + 2) 0).toNat ∧ (p.getD (i + 2) 0).toNat < 56 then
+          -- (prio[i] is the digit now: not 'i'); skip to the next comma, the loop steps over it
+          prioLoop p fuel (prioSkip p p.length (i + 2) + 1) ((p.getD (i + 2) 0).toNat - 48) incr
+        else (urg, incr)
+      else (urg, incr)
+    else if p.getD i 0 = 105 then                         -- 'i'
+      if i + 3 < p.length ∧ p.getD (i + 1) 0 = 61 ∧ p.getD (i + 2) 0 = 63 then   -- "=?"
+        if p.getD (i + 3) 0 = 48 ∨ p.getD (i + 3) 0 = 49 then
+          prioLoop p fuel (prioSkip p p.length (i + 3) + 1) urg (p.getD (i + 3) 0 = 49)
+        else (urg, incr)
+      else if i + 1 = p.length ∨ prioSep (p.getD (i + 1) 0) then
+        prioLoop p fuel (prioSkip p p.length i + 1) urg true
+      else (urg, incr)
+    else prioLoop p fuel (prioSkip p p.length i + 1) urg incr
+
+/-- r->x.h2.prio for a Priority field value: urgency << 1 | !incremental (defaults u=3, i=?0) -/
+def parsePrio (p : Bytes) : Nat :=
+  (prioLoop p (p.length + 1) 0 3 false).1 * 2 + (if (prioLoop p (p.length + 1) 0 3 false).2 then 0 else 1)
+
 def toFrameIn (dec : Bytes → HdrKind) (f : RawFrame) : FrameIn :=
   match f.ftype with
   | 0 => .data (u31 f.sid) f.payload.length
@@ -193,10 +230,12 @@ def toFrameIn (dec : Bytes → HdrKind) (f : RawFrame) : FrameIn :=
   | 3 => .rstStream (u31 f.sid) f.payload.length (be (slice f.payload 0 4))
   | 4 => .settings (flagSet f.flags 1) (u31 f.sid) (settingsParams f.payload) (f.payload.length % 6)
   | 5 => .pushPromise (u31 f.sid)
-  | 6 => .ping (flagSet f.flags 1) (u31 f.sid) f.payload.length
+  | 6 => .ping (flagSet f.flags 1) (u31 f.sid) f.payload.length f.payload
   | 7 => .goaway (u31 f.sid) f.payload.length (be (slice f.payload 4 4))
   | 8 => .windowUpdate (u31 f.sid) f.payload.length (u31 (be (slice f.payload 0 4)))
   | 9 => .continuation (u31 f.sid)
+  | 16 => .priorityUpdate (u31 f.sid) f.payload.length (u31 (be (slice f.payload 0 4)))
+            (parsePrio (f.payload.drop 4))
   | t => .unknown t
 
 /-- a reader event as frame-level input: the 32-frame CONTINUATION heuristic fires first;
